@@ -205,10 +205,10 @@ theorem clz_le_of_ge {m : Nat} {j : Nat} (hm : 2 ^ (63 - j) ≤ m) (h64 : m < 2 
 
 /-- `scaleLarge`, computed: `c2 = rhu(a·b/2^64)`, normalised by `sh ≤ 2` bits, errors `4·2^sh` or `9·2^sh` -/
 theorem scaleLarge_eq (F : FTy) (a b e1 : Nat) (ea eb : Int)
-    (ha1 : 2 ^ 62 ≤ a) (ha2 : a < 2 ^ 64) (hb1 : 2 ^ 63 ≤ b) (hb2 : b < 2 ^ 64) (he1 : e1 = 0 ∨ e1 = 4) :
+    (ha1 : 2 ^ 62 ≤ a) (ha2 : a < 2 ^ 64) (hb1 : 2 ^ 63 ≤ b) (hb2 : b < 2 ^ 64) (he1 : e1 < 2 ^ 25) :
     ∃ (c2 sh : Nat),
       scaleLarge F ⟨a, ea⟩ e1 ⟨b, eb⟩ =
-        .mid ⟨c2 * 2 ^ sh, ea + eb + 64 - sh + F.C.exponentBias⟩ ((if e1 = 0 then 4 else 9) * 2 ^ sh) ∧
+        .mid ⟨c2 * 2 ^ sh, ea + eb + 64 - sh + F.C.exponentBias⟩ ((if e1 = 0 then 4 else e1 + 5) * 2 ^ sh) ∧
       c2 = (a * b + 2 ^ 63) / 2 ^ 64 ∧
       2 ^ 63 ≤ c2 * 2 ^ sh ∧ c2 * 2 ^ sh < 2 ^ 64 ∧ sh ≤ 2 := by
   have hc2_lo : 2 ^ 61 ≤ (a * b + 2 ^ 63) / 2 ^ 64 := by
@@ -233,20 +233,35 @@ theorem scaleLarge_eq (F : FTy) (a b e1 : Nat) (ea eb : Int)
   have hpw : 2 ^ sh ≤ 2 ^ 2 := Nat.pow_le_pow_right (by norm_num) hsh
   have hmod : sh % 32 = sh := Nat.mod_eq_of_lt (by omega)
   have herr : wrap32 (wrap32 ((if e1 > 0 then wrap32 (e1 + 1) else e1) + litErrorHalfscale) * 2 ^ (sh % 32)) =
-      (if e1 = 0 then 4 else 9) * 2 ^ sh := by
+      (if e1 = 0 then 4 else e1 + 5) * 2 ^ sh := by
     rw [hmod]
+    have h25 : (2 : Nat) ^ 25 = 33554432 := by norm_num
+    have h32 : (2 : Nat) ^ 32 = 4294967296 := by norm_num
+    rw [h25] at he1
     unfold litErrorHalfscale litErrorScale wrap32
-    rcases he1 with h | h <;> subst h <;> simp <;> omega
+    rw [h32]
+    by_cases h0 : e1 = 0
+    · subst h0; simp; omega
+    · have hpos : e1 > 0 := by omega
+      simp only [hpos, if_true, h0, if_false]
+      have e1' : (e1 + 1) % 4294967296 = e1 + 1 := Nat.mod_eq_of_lt (by omega)
+      have e2' : (e1 + 1 + 8 / 2) % 4294967296 = e1 + 5 := by
+        rw [Nat.mod_eq_of_lt (by omega)]
+      rw [e1', e2']
+      apply Nat.mod_eq_of_lt
+      have : (e1 + 5) * 2 ^ sh ≤ (e1 + 5) * 2 ^ 2 := Nat.mul_le_mul_left _ hpw
+      omega
   simp only [herr]
 
 /-- `scaleSmall` for an untruncated mantissa, computed, with the exact value it stands for:
 `(w·si)·2^(−ea) = a` (exact case) or `= P1/2^64` with `a = rhu(P1/2^64)` -/
-theorem scaleSmall_eq (w si sm ns : Nat) (hw0 : w ≠ 0) (hw : w < 2 ^ 64) (hsi : 0 < si)
-    (hsm : sm = si * 2 ^ ns) (hsm1 : 2 ^ 63 ≤ sm) (hsm2 : sm < 2 ^ 64) (hns : ns ≤ 64) :
+theorem scaleSmall_eq (w si sm ns errors0 : Nat) (hw0 : w ≠ 0) (hw : w < 2 ^ 64) (hsi : 0 < si)
+    (hsm : sm = si * 2 ^ ns) (hsm1 : 2 ^ 63 ≤ sm) (hsm2 : sm < 2 ^ 64) (hns : ns ≤ 64)
+    (he0 : errors0 < 2 ^ 24) :
     ∃ (a e1 : Nat) (ea : Int),
-      scaleSmall w si ⟨sm, -(ns : Int)⟩ 0 = (⟨a, ea⟩, e1) ∧ 2 ^ 62 ≤ a ∧ a < 2 ^ 64 ∧ -200 ≤ ea ∧ ea ≤ 64 ∧
-      ((e1 = 0 ∧ ((w * si : Nat) : ℚ) * 2 ^ (-ea) = a) ∨
-       (e1 = 4 ∧ ∃ P1 : Nat, P1 < 2 ^ 128 ∧ a = (P1 + 2 ^ 63) / 2 ^ 64 ∧
+      scaleSmall w si ⟨sm, -(ns : Int)⟩ errors0 = (⟨a, ea⟩, e1) ∧ 2 ^ 62 ≤ a ∧ a < 2 ^ 64 ∧ -200 ≤ ea ∧ ea ≤ 64 ∧
+      ((e1 = errors0 ∧ ((w * si : Nat) : ℚ) * 2 ^ (-ea) = a) ∨
+       (e1 = errors0 + 4 ∧ ∃ P1 : Nat, P1 < 2 ^ 128 ∧ a = (P1 + 2 ^ 63) / 2 ^ 64 ∧
           ((w * si : Nat) : ℚ) * 2 ^ (-ea) = (P1 : ℚ) / 2 ^ 64)) := by
   unfold scaleSmall
   by_cases hov : w * si ≥ 2 ^ 64
@@ -276,7 +291,14 @@ theorem scaleSmall_eq (w si sm ns : Nat) (hw0 : w ≠ 0) (hw : w < 2 ^ 64) (hsi 
       rw [Nat.div_lt_iff_lt_mul (by norm_num)]
       have : (2 : Nat) ^ 128 - 2 ^ 65 + 1 + 2 ^ 63 < 2 ^ 64 * 2 ^ 64 := by norm_num
       omega
-    refine ⟨_, _, _, rfl, ha_lo, ha_hi, by omega, by omega, Or.inr ⟨by decide, P1, hP1hi, rfl, ?_⟩⟩
+    have hwr : wrap32 (errors0 + litErrorHalfscale) = errors0 + 4 := by
+      unfold wrap32 litErrorHalfscale litErrorScale
+      have h24 : (2 : Nat) ^ 24 = 16777216 := by norm_num
+      have h32 : (2 : Nat) ^ 32 = 4294967296 := by norm_num
+      rw [h24] at he0; rw [h32]
+      exact Nat.mod_eq_of_lt (by omega)
+    rw [hwr]
+    refine ⟨_, _, _, rfl, ha_lo, ha_hi, by omega, by omega, Or.inr ⟨rfl, P1, hP1hi, rfl, ?_⟩⟩
     rw [← hP1, hsm]
     push_cast
     have : (2 : ℚ) ^ (-(-(cw : Int) + -(ns : Int) + 64)) = 2 ^ cw * 2 ^ ns / 2 ^ 64 := by
@@ -296,31 +318,45 @@ theorem scaleSmall_eq (w si sm ns : Nat) (hw0 : w ≠ 0) (hw : w < 2 ^ 64) (hsi 
     refine ⟨_, _, _, rfl, h62, hm2, by omega, by omega, Or.inl ⟨rfl, ?_⟩⟩
     rw [neg_neg, zpow_natCast]; push_cast; ring
 
-/-- **`bellerophon_error_bound`, scaling part** (untruncated mantissa): after both multiplications and the
-normalisation, the significand is within `(−4, +errors)` units of the true scaled value
-`(w·si)·B·2^(eb + EXPONENT_BIAS − exp)`, where `B ∈ [b, b+1)` is the real value the truncated large power stands
-for; `4 ≤ errors ≤ 36`. -/
-theorem scale_bound (F : FTy) (w si sm ns b : Nat) (eb : Int) (B : ℚ)
+/-- **`bellerophon_error_bound`, scaling part**: after both multiplications and the normalisation by
+`sh ≤ 2` bits, the significand `mant` satisfies `mant − 2^sh < y < mant + 2·2^sh` for the scaled value
+`y = (w·si)·B·2^(eb + EXPONENT_BIAS − exp)` of the (truncated) mantissa `w`, where `B ∈ [b, b+1)` is the real
+number the truncated large power stands for; the booked `errors` are `E·2^sh` with `E = 4` or `9` for
+`errors0 = 0` and `E = errors0 + 5` or `errors0 + 9` otherwise. -/
+theorem scale_bound (F : FTy) (w si sm ns b errors0 : Nat) (eb : Int) (B : ℚ)
     (hw0 : w ≠ 0) (hw : w < 2 ^ 64) (hsi : 0 < si) (hsm : sm = si * 2 ^ ns) (hsm1 : 2 ^ 63 ≤ sm)
     (hsm2 : sm < 2 ^ 64) (hns : ns ≤ 64) (hb1 : 2 ^ 63 ≤ b) (hb2 : b < 2 ^ 64)
-    (hB1 : (b : ℚ) ≤ B) (hB2 : B < b + 1) :
-    ∃ (mant errors : Nat) (pw : Int),
-      scaleLarge F (scaleSmall w si ⟨sm, -(ns : Int)⟩ 0).1 (scaleSmall w si ⟨sm, -(ns : Int)⟩ 0).2 ⟨b, eb⟩ =
-        .mid ⟨mant, pw⟩ errors ∧
-      2 ^ 63 ≤ mant ∧ mant < 2 ^ 64 ∧ 4 ≤ errors ∧ errors ≤ 36 ∧
+    (hB1 : (b : ℚ) ≤ B) (hB2 : B < b + 1) (he0 : errors0 < 2 ^ 24) :
+    ∃ (mant sh E : Nat) (pw : Int),
+      scaleLarge F (scaleSmall w si ⟨sm, -(ns : Int)⟩ errors0).1 (scaleSmall w si ⟨sm, -(ns : Int)⟩ errors0).2
+        ⟨b, eb⟩ = .mid ⟨mant, pw⟩ (E * 2 ^ sh) ∧
+      2 ^ 63 ≤ mant ∧ mant < 2 ^ 64 ∧ sh ≤ 2 ∧
+      ((errors0 = 0 ∧ (E = 4 ∨ E = 9)) ∨ (0 < errors0 ∧ (E = errors0 + 5 ∨ E = errors0 + 9))) ∧
       -300 ≤ pw - eb - F.C.exponentBias ∧ pw - eb - F.C.exponentBias ≤ 200 ∧
-      (mant : ℚ) - 4 < ((w * si : Nat) : ℚ) * B * 2 ^ (F.C.exponentBias - pw + eb) ∧
-      ((w * si : Nat) : ℚ) * B * 2 ^ (F.C.exponentBias - pw + eb) < mant + errors := by
-  obtain ⟨a, e1, ea, hs, ha1, ha2, hea1, hea2, hcase⟩ := scaleSmall_eq w si sm ns hw0 hw hsi hsm hsm1 hsm2 hns
-  have he1 : e1 = 0 ∨ e1 = 4 := by rcases hcase with h | h; exact Or.inl h.1; exact Or.inr h.1
+      (mant : ℚ) - 2 ^ sh < ((w * si : Nat) : ℚ) * B * 2 ^ (F.C.exponentBias - pw + eb) ∧
+      ((w * si : Nat) : ℚ) * B * 2 ^ (F.C.exponentBias - pw + eb) < mant + 2 * 2 ^ sh := by
+  obtain ⟨a, e1, ea, hs, ha1, ha2, hea1, hea2, hcase⟩ :=
+    scaleSmall_eq w si sm ns errors0 hw0 hw hsi hsm hsm1 hsm2 hns he0
+  have h24 : (2 : Nat) ^ 24 = 16777216 := by norm_num
+  have h25 : (2 : Nat) ^ 25 = 33554432 := by norm_num
+  have he1 : e1 < 2 ^ 25 := by
+    rw [h24] at he0; rw [h25]
+    rcases hcase with h | h <;> omega
   obtain ⟨c2, sh, hl, hc2, n1, n2, hsh⟩ := scaleLarge_eq F a b e1 ea eb ha1 ha2 hb1 hb2 he1
   rw [hs]
   simp only []
-  refine ⟨_, _, _, hl, n1, n2, ?_, ?_, by omega, by omega, ?_⟩
-  · have := Nat.two_pow_pos sh
-    split <;> omega
-  · have : 2 ^ sh ≤ 2 ^ 2 := Nat.pow_le_pow_right (by norm_num) hsh
-    split <;> omega
+  refine ⟨_, sh, _, _, hl, n1, n2, hsh, ?_, by omega, by omega, ?_⟩
+  · by_cases h0 : errors0 = 0
+    · left
+      refine ⟨h0, ?_⟩
+      rcases hcase with ⟨h, _⟩ | ⟨h, _⟩
+      · left; rw [h, h0]; rfl
+      · right; rw [h, h0]; rfl
+    · right
+      refine ⟨by omega, ?_⟩
+      rcases hcase with ⟨h, _⟩ | ⟨h, _⟩
+      · left; rw [h, if_neg h0]
+      · right; rw [h, if_neg (by omega)]
   -- the exponent: EXPONENT_BIAS − pw + eb = −ea − 64 + sh
   have hexp : F.C.exponentBias - (ea + eb + 64 - (sh : Int) + F.C.exponentBias) + eb = -ea + (-64 + (sh : Int)) := by
     ring
@@ -329,29 +365,20 @@ theorem scale_bound (F : FTy) (w si sm ns b : Nat) (eb : Int) (B : ℚ)
   have hshq : (2 : ℚ) ^ (sh : Int) = 2 ^ sh := zpow_natCast 2 sh
   rw [h64, hshq]
   have hsh1 : (1 : ℚ) ≤ 2 ^ sh := one_le_pow₀ (by norm_num)
-  have hsh4 : (2 : ℚ) ^ sh ≤ 4 := by
-    have : (2 : ℚ) ^ sh ≤ 2 ^ 2 := pow_le_pow_right₀ (by norm_num) hsh
-    linarith
   have hmant : ((c2 * 2 ^ sh : Nat) : ℚ) = (c2 : ℚ) * 2 ^ sh := by push_cast; ring
   rw [hmant]
   rcases hcase with ⟨h0, hv⟩ | ⟨h4, P1, hP1, haP, hv⟩
   · -- exact small multiplication
-    subst h0
     obtain ⟨e1', e2'⟩ := mul_error_exact a b c2 B ha2 hB1 hB2 hc2
     have hy : ((w * si : Nat) : ℚ) * B * (2 ^ (-ea) * (1 / 2 ^ 64 * 2 ^ sh)) = (a : ℚ) * B / 2 ^ 64 * 2 ^ sh := by
       rw [← hv]; ring
     rw [hy]
-    simp only [if_true]
-    push_cast
     constructor <;> nlinarith
-  · subst h4
-    obtain ⟨e1', e2'⟩ := mul_error_rounded P1 a b c2 B hP1 hb2 (by have := Nat.two_pow_pos 63; omega) haP hB1 hB2 hc2
+  · obtain ⟨e1', e2'⟩ := mul_error_rounded P1 a b c2 B hP1 hb2 (by have := Nat.two_pow_pos 63; omega) haP hB1 hB2 hc2
     have hy : ((w * si : Nat) : ℚ) * B * (2 ^ (-ea) * (1 / 2 ^ 64 * 2 ^ sh)) =
         (P1 : ℚ) / 2 ^ 64 * B / 2 ^ 64 * 2 ^ sh := by
       rw [← hv]; ring
     rw [hy]
-    simp only [show ¬ ((4 : Nat) = 0) from by decide, if_false]
-    push_cast
     constructor <;> nlinarith
 
 end LexVerif.Proof.Bell
